@@ -2,15 +2,18 @@
 (* all argument vectors up to MaxLen over the value table x every call kind *)
 EXTENDS MSFfi
 CONSTANTS MaxLen, ValIdx
-VARIABLES args, call, call2, args2, done
-Init == args = <<>> /\ call = "" /\ call2 = "" /\ args2 = <<>> /\ done = FALSE
-Next == \/ (~done /\ Len(args) < MaxLen /\ \E v \in ValIdx : args' = Append(args, v) /\ UNCHANGED <<call, call2, args2, done>>)
-        \/ (~done /\ \E f \in Calls : call' = f /\ done' = TRUE /\ UNCHANGED <<args, call2, args2>>)
+VARIABLES args, call, call2, args2, spell, done
+(* how the library is named: an absolute path, or a relative name that contains a backslash (an ordinary
+   file-name character on this platform; the name must reach the loader unchanged) *)
+Spells == {"plain", "backslash"}
+Init == args = <<>> /\ call = "" /\ call2 = "" /\ args2 = <<>> /\ spell = "plain" /\ done = FALSE
+Next == \/ (~done /\ Len(args) < MaxLen /\ \E v \in ValIdx : args' = Append(args, v) /\ UNCHANGED <<call, call2, args2, spell, done>>)
+        \/ (~done /\ \E f \in Calls, sp \in Spells : call' = f /\ spell' = sp /\ done' = TRUE /\ UNCHANGED <<args, call2, args2>>)
         \/ (~done /\ Len(args) <= 2 /\ \E f \in Calls \ {"probe_fail", "missing_symbol", "missing_library"}, f2 \in Calls, a2 \in {<<>>, <<6>>} :
-              call' = f /\ call2' = f2 /\ args2' = a2 /\ done' = TRUE /\ UNCHANGED args)
+              call' = f /\ call2' = f2 /\ args2' = a2 /\ done' = TRUE /\ UNCHANGED <<args, spell>>)
 (* the property on the specification: after a failed call nothing more is printed *)
 NoOutputAfterFailure == done => LET e == Expected([args |-> args, call |-> call, call2 |-> call2, args2 |-> args2]) IN
                                  e.status = "failed" => (\A k \in 1..Len(e.out) : e.out[k] # "after")
-EmitCase == done => PrintT("CASE " \o ToJson([args |-> args, call |-> call, call2 |-> call2, args2 |-> args2,
+EmitCase == done => PrintT("CASE " \o ToJson([args |-> args, call |-> call, call2 |-> call2, args2 |-> args2, spell |-> spell,
                                                vals |-> [k \in 1..Len(args) |-> Vals[args[k]]], vals2 |-> [k \in 1..Len(args2) |-> Vals[args2[k]]]]))
 =============================================================================
